@@ -128,6 +128,10 @@ def main():
     facts.append('Definition typedef_strip_prefix : string := "%s".' % m1.group(2))
     facts.append('Definition typedef_prefix_pass2 : string := "%s".' % m2.group(1))
 
+    # enum values: is distinctness of the values checked?  (two distinct values are required)
+    distinct = re.search(r"values\s*\.iter\(\)\s*\.unique\(\)\s*\.count\(\)\s*<\s*2", su)
+    facts.append("Definition enum_values_checked_distinct : bool := %s." % ("true" if distinct else "false"))
+
     dr = strip_comments(read_nontest("detailed_report.rs"))
     m = need(r'fn\s+get_csv_header_row\(\)\s*->\s*&\'static\s+str\s*\{\s*"([^"]*)"', dr, "CSV header")
     facts.append('Definition csv_header : string := "%s".' % m.group(1).replace("\\n", ""))
